@@ -96,7 +96,7 @@ func c04r1(c *core.Ctx) {
 	}
 	// SetupEncryptionKey call sites: role by receiver type
 	for _, f := range libFuncs(p) {
-		for _, s := range core.FindCalls(f, func(i ssa.Instruction) bool { g := core.Callee(i); return g != nil && g.Name() == "SetupEncryptionKey" }) {
+		for _, s := range core.FindCalls(f, func(i ssa.Instruction) bool { g := core.Callee(i); return g != nil && cn(g) == "SetupEncryptionKey" }) {
 			g := core.Callee(s)
 			a := core.Args(s)
 			switch {
@@ -253,7 +253,7 @@ func c04r2(c *core.Ctx) {
 	var newSRP, verifier, newSess *ssa.Call
 	core.Instrs(f, func(i ssa.Instruction) {
 		if g := core.Callee(i); g != nil {
-			switch g.Name() {
+			switch cn(g) {
 			case "NewSRP":
 				newSRP = i.(*ssa.Call)
 			case "ComputeVerifier":
@@ -363,9 +363,9 @@ func c04r2(c *core.Ctx) {
 	if nt := p.Func("", "NewIPTransport"); nt != nil {
 		ok := false
 		core.Instrs(nt, func(i ssa.Instruction) {
-			if g := core.Callee(i); g != nil && g.Name() == "NewSecuredDevice" {
+			if g := core.Callee(i); g != nil && cn(g) == "NewSecuredDevice" {
 				ok = core.AnySource(core.Args(i)[1], func(s ssa.Value) bool {
-					return core.CallResult(s, 0, func(ci ssa.Instruction) bool { g := core.Callee(ci); return g != nil && g.Name() == "ValidatePin" }) != nil
+					return core.CallResult(s, 0, func(ci ssa.Instruction) bool { g := core.Callee(ci); return g != nil && cn(g) == "ValidatePin" }) != nil
 				})
 			}
 		})
@@ -511,7 +511,7 @@ func c04r3(c *core.Ctx) {
 	if f := p.Func("hap/pair", "(*VerifySession).GenerateSharedKeyWithOtherPublicKey"); f != nil {
 		ok := false
 		core.Instrs(f, func(i ssa.Instruction) {
-			if g := core.Callee(i); g != nil && g.Name() == "SharedSecret" {
+			if g := core.Callee(i); g != nil && cn(g) == "SharedSecret" {
 				a := core.Args(i)
 				_, own := core.FieldLoad(a[0], tVerifySess, "PrivateKey")
 				ok = own && a[1] == ssa.Value(f.Params[1])
@@ -576,24 +576,33 @@ func lenEqualsFact(x ssa.Value, k int64) core.CondFact {
 func c04r4(c *core.Ctx) {
 	p := c.P
 	type handler struct {
-		rel, fn, typ string
-		state        int64
+		f     *ssa.Function
+		typ   string
+		state int64
 	}
-	hs := []handler{
-		{"hap/pair", "(*SetupServerController).handlePairStart", tSetupCtrl, 2},
-		{"hap/pair", "(*SetupServerController).handlePairVerify", tSetupCtrl, 4},
-		{"hap/pair", "(*SetupServerController).handleKeyExchange", tSetupCtrl, 6},
-		{"hap/pair", "(*VerifyServerController).handlePairVerifyStart", tVerifyCtrl, 2},
-		{"hap/pair", "(*VerifyServerController).handlePairVerifyFinish", tVerifyCtrl, 4},
-		{"hap/pair", "(*PairingController).Handle", mod + "/hap/pair.PairingController", 2},
+	var hs []handler
+	// step handlers are discovered by role (methods dispatched from Handle under a step guard); a handler dispatched
+	// under step == g answers with state g+2 (M2, M4, M6 / verify M2, M4)
+	for _, spec := range []struct{ ctrl, typ string }{{"SetupServerController", tSetupCtrl}, {"VerifyServerController", tVerifyCtrl}} {
+		mo := buildStepModel(p, "hap/pair", spec.ctrl, spec.typ)
+		if mo == nil || len(mo.handlers) == 0 {
+			c.Undecided("state-item:"+spec.ctrl, token.NoPos, "step handlers not found")
+			continue
+		}
+		for _, h := range mo.handlers {
+			if mo.guardOK[h] {
+				hs = append(hs, handler{h, spec.typ, mo.guard[h] + 2})
+			}
+		}
+	}
+	if f := p.Func("hap/pair", "(*PairingController).Handle"); f != nil {
+		hs = append(hs, handler{f, mod + "/hap/pair.PairingController", 2})
+	} else {
+		c.Undecided("state-item:PairingController.Handle", token.NoPos, "not found")
 	}
 	total := 0
 	for _, h := range hs {
-		f := p.Func(h.rel, h.fn)
-		if f == nil {
-			c.Undecided("state-item:"+h.fn, token.NoPos, "not found")
-			continue
-		}
+		f := h.f
 		bad := 0
 		var w core.Path
 		why := ""
@@ -624,7 +633,7 @@ func c04r4(c *core.Ctx) {
 				arg := core.StripConv(cc.Args[1])
 				v, vk := core.ConstInt(arg)
 				if !vk {
-					if call, ok := arg.(*ssa.Call); ok && core.Callee(call) != nil && core.Callee(call).Name() == "Byte" {
+					if call, ok := arg.(*ssa.Call); ok && core.Callee(call) != nil && cn(core.Callee(call)) == "Byte" {
 						inner := core.StripConv(call.Call.Args[0])
 						if _, isStep := core.FieldLoad(inner, h.typ, "step"); isStep && set && known {
 							v, vk = val, true
@@ -743,7 +752,7 @@ func c04r4(c *core.Ctx) {
 			if isTestFunc(p, f) {
 				continue
 			}
-			c.Check(f.Name() == spec.ctor, "write:"+core.Rel(spec.typ)+".session@"+fname(f), st.Pos(), "the session object is set once by the constructor",
+			c.Check(cn(f) == spec.ctor, "write:"+core.Rel(spec.typ)+".session@"+fname(f), st.Pos(), "the session object is set once by the constructor",
 				"the controller's session object is replaced in "+fname(f)+": keys negotiated in this exchange (the shared key the endpoint reads after the finish step) are lost")
 		}
 	}
